@@ -64,7 +64,7 @@ def parseRaw (s : String) : Option RawNode :=
     | _, _ => none
   | _ => none
 
-def kindOf (k : String) : Kind := if k = "l" then .symlink else if k = "s" then .special else .reg
+def kindOf (k : String) : Kind := if k = "l" || k = "L" then .symlink else if k = "s" then .special else .reg   -- L: symlink to a directory (a leaf of the walk)
 
 /-- rebuild the tree from its preorder listing (fuel = depth bound; drivers only) -/
 def buildNode : Nat → List RawNode → RawNode → Node
